@@ -14,7 +14,7 @@ import networkx as nx
 from .. import AnalysisError, tables
 from ..callgraph import callgraph
 from ..pm import src, dotted
-from ..q import FA, call_name, const, is_self_attr, walk_no_nested
+from ..q import FA, call_name, const, guard_facts, is_self_attr, walk_no_nested
 from ..resolve import resolver
 from ..rules import undef
 from ..rules.selfattrs import SelfAttrs
@@ -355,6 +355,24 @@ def run(ctx):
     full_ = [s_ for s_ in st_ if isinstance(s_.targets[0].slice.elts[0], ast.Slice) and s_.targets[0].slice.elts[0].lower is None and s_.targets[0].slice.elts[0].upper is None]
     ctx.ob("R-COVER", "C12.6", lpa_, "log_prob_all fills one column per saved flow: whole columns at once, or in batches decided above", bool(st_) and (len(full_) == len(st_) or any(f_ is lpa_ for f_, _l, _o, _w in cov_)), f"{[src(s_)[:60] for s_ in st_]}")
     ctx.floor("C12.6", 2)
+    # ---- C12.7 a resumed loop does not repeat the bookkeeping of the checkpointed iteration ------------------------------
+    # update_state records the history row of the current iteration and then (last statement) writes the periodic
+    # checkpoint, so the pickle already contains that row; a call of update_state on loop entry, before the first
+    # consume_sample of the resumed loop, records the same iteration a second time
+    nl_ = ctx.fn(tables.NS + ".nested_sampling_loop")
+    nla_ = FA(nl_)
+    us_ = nla_.find_calls("self.update_state")
+    cs_ = nla_.find_calls("self.consume_sample")
+    ctx.require(len(cs_) == 1 and us_, "NestedSampler.nested_sampling_loop: consume_sample / update_state calls not found")
+    ust_ = ctx.fn(tables.NS + ".update_state")
+    usa_ = FA(ust_)
+    ck_ = usa_.find_calls("self.checkpoint")
+    hist_ = usa_.find_calls("self.update_history")
+    ctx.ob("R-ORDER", "C12.7", ust_, "update_state records the history before it writes the periodic checkpoint (the pickle contains the row of its own iteration)", len(ck_) == 1 and len(hist_) == 1 and usa_.cfg.can_follow(hist_[0][0], ck_[0][0]) and not usa_.cfg.can_follow(ck_[0][0], hist_[0][0]), "")
+    for nid_, c_ in us_:
+        where_ = "inside the sampling loop" if nla_.cfg.in_loop(nid_) else "outside the sampling loop"
+        ctx.ob("R-ORDER", "C12.7", nl_, f"the per-iteration bookkeeping (update_state: history row, checkpoint) called {where_} runs only after a sample was consumed in this call of nested_sampling_loop - not on entry of a resumed loop", nla_.dominates(cs_[0][0], nid_), f"`{src(c_)}` under {[(src(e_)[:30], t_) for e_, t_ in guard_facts(nla_, nid_)]}", node=c_)
+    ctx.floor("C12.7", 3)
     ctx.assumptions += ["pickle restores every attribute not named in __getstate__ bit-for-bit", "observational equality of result-bearing fields after resume is not decided (needs a run)"]
 
 
